@@ -308,3 +308,9 @@ def run(ctx, eng):
                'last-stream-id counts only streams the peer really opened: '
                'the connection machine refuses the frame before any stream '
                'is created for it')
+    cm.include(ctx, eng, 'C06',
+               lambda o: o.rule == 'FSM.layer3' and
+               o.where.endswith('_receive_frame'),
+               'frames for a forgotten stream: RST_STREAM after a reset, '
+               'STREAM_CLOSED after END_STREAM, PROTOCOL_ERROR otherwise - '
+               'decided for the stream the frame arrived on')
